@@ -19,7 +19,9 @@ open Glom Glom.MV Glom.C10
 theorem ofArg_pass (a : Arg) (t : V) : isPass (ofArg a t) = argOK a t ∧ isFault (ofArg a t) = false := by
   cases a with
   | const v => simp [ofArg, argOK, isPass, isFault]
+  | val v => simp [ofArg, argOK, isPass, isFault]
   | t e => simp only [ofArg, argOK]; cases tGet e t <;> simp [isPass, isFault]
+  | seq tup items => simp only [ofArg, argOK]; cases ofItems items t <;> simp [isPass, isFault]
 
 /-- `default=`: a rejection becomes the default -/
 theorem withDefault_conf (d : Option Arg) (t : V) (x : D) (b : Bool)
@@ -155,22 +157,46 @@ def keyIsHit : KeyHit → Bool
   | .hit .. => true
   | _ => false
 
-theorem constDefaults_fill (target : V) (ds : List (V × Arg)) (hc : ∀ p ∈ ds, ∃ v, p.2 = Arg.const v)
+theorem ofItems_const (items : List ArgItem) (t : V) (h : items.all ArgItem.isConst = true) :
+    (ofItems items t).isSome = true := by
+  induction items with
+  | nil => rfl
+  | cons it r ih =>
+    simp only [List.all_cons, Bool.and_eq_true] at h
+    cases it with
+    | const v =>
+      simp only [ofItems]
+      have := ih h.2
+      cases ofItems r t <;> simp_all
+    | t e => simp [ArgItem.isConst] at h
+
+theorem ofArg_const (a : Arg) (t : V) (h : a.isConst = true) : ∃ v, ofArg a t = .pass v := by
+  cases a with
+  | const v => exact ⟨v, rfl⟩
+  | val v => exact ⟨v, rfl⟩
+  | t e => simp [Arg.isConst] at h
+  | seq tup items =>
+    have := ofItems_const items t (by simpa [Arg.isConst] using h)
+    simp only [ofArg]
+    cases ofItems items t with
+    | none => simp at this
+    | some vs => exact ⟨_, rfl⟩
+
+theorem constDefaults_fill (target : V) (ds : List (V × Arg)) (hc : ∀ p ∈ ds, p.2.isConst = true)
     (result : List (V × V)) : ∃ r, defaultsRef target ds result = .ok r := by
   induction ds generalizing result with
   | nil => exact ⟨result, rfl⟩
   | cons kd ds ih =>
     obtain ⟨k, d⟩ := kd
-    obtain ⟨v, hv⟩ := hc (k, d) (by simp)
-    simp only at hv; subst hv
+    obtain ⟨v, hv⟩ := ofArg_const d target (hc (k, d) (by simp))
     unfold defaultsRef
     split
     · exact ih (fun p hp => hc p (by simp [hp])) result
-    · simp only [ofArg]
+    · simp only [hv]
       exact ih (fun p hp => hc p (by simp [hp])) _
 
 theorem dictDefaults_const (es : List (KeyKind × Spec × Spec)) (h : constDefaultsD es = true) :
-    ∀ p ∈ dictDefaults es, ∃ v, p.2 = Arg.const v := by
+    ∀ p ∈ dictDefaults es, p.2.isConst = true := by
   induction es with
   | nil => simp [dictDefaults]
   | cons e es ih =>
@@ -184,10 +210,13 @@ theorem dictDefaults_const (es : List (KeyKind × Spec × Spec)) (h : constDefau
       cases d with
       | none => cases k <;> simpa [dictDefaults] using ih h4
       | some a =>
-        cases a with
-        | t e => simp at h1
-        | const c =>
-          cases k <;> simpa [dictDefaults] using ih h4
+        simp only at h1
+        cases k <;> simp only [dictDefaults] <;> first
+          | exact ih h4
+          | (intro p hp
+             rcases List.mem_cons.mp hp with rfl | hp
+             · exact h1
+             · exact ih h4 p hp)
 
 /-- relation between the sequential key search and the declarative claim -/
 def KeyConf (ct : ClassTable) (es : List (KeyKind × Spec × Spec)) (i : Nat) (key val : V) (h : KeyHit) : Prop :=
